@@ -1,0 +1,31 @@
+//go:build verif
+
+// Contracts for the contract-based deductive verification in /verif (govc).
+// Comment-only: nothing in this file is compiled into the package.
+package settlement
+
+//@ modset SETTLE = Result, PlayerResult, PotResult, PotLevel, LevelInfo, RankGroup, Winner, elems(*PlayerResult), elems(*PotResult), elems(*LevelInfo), elems(*RankGroup), elems(*Winner), elems(int)
+
+//@ func (*Result).AddPot(r, total, levels)
+//@   trusted
+//@   requires r != nil
+//@   modifies @SETTLE
+//@   allocs
+
+//@ func (*Result).AddPlayer(r, playerIdx, bankroll)
+//@   trusted
+//@   requires r != nil
+//@   modifies @SETTLE
+//@   allocs
+
+//@ func (*Result).UpdateScore(r, playerIdx, score)
+//@   trusted
+//@   requires r != nil
+//@   modifies @SETTLE
+//@   allocs
+
+//@ func (*Result).Calculate(r)
+//@   trusted
+//@   requires r != nil
+//@   modifies @SETTLE
+//@   allocs
